@@ -11,7 +11,8 @@ ASSUMPTIONS = ["fall time = public Pulse.fall_time", "EOM bandwidth >= channel b
 TIERS = {"quick": dict(cases=1500, shards=8, case_timeout=120, shard_timeout=900),
          "thorough": dict(cases=24000, shards=16, case_timeout=120, shard_timeout=3000)}
 FLOORS = {"quick": {"pulse_pairs_checked": 3000, "gap_enforced": 300, "retargets_checked": 500, "retarget_waited": 100,
-                    "phase_differs_only_by_drift_during_wait": 3},
+                    "phase_differs_only_by_drift_during_wait": 3,
+                    "retarget_fall_pending_behind_several_delays": 50},
           "thorough": {"pulse_pairs_checked": 50000}}
 WEIGHTS = {"add": 12, "target": 5, "target_index": 1, "align": 0.8, "delay": 2.5, "declare_channel": 3,
            "phase_shift": 0.6, "measure": 0.02, "sample": 0, "str": 0, "to_abstract_repr": 0, "build_copy": 0,
@@ -24,6 +25,8 @@ def run_case(ctx, idx, rng, tier):
     r = prog.Runner(ctx, dev, reg, [mon])
     g = gen.ProgGen(rng, dev, reg, r.chspecs, weights=WEIGHTS, same_phase=0.3)
     g.motifs["drift"] = 0.5
+    g.motifs["retarget"] = 0.3
+    g.motifs["fall"] = 0.15
     for _ in range(rng.randint(8, 40)):
         op = g.next_op()
         ev = r.step(op)
